@@ -95,4 +95,9 @@ impl PayloadHistory {
     spec fn cur(&self) -> Serial {
         if self.deltas@.len() > 0 { self.deltas@[0].serial_spec() } else { Serial(0u32) }
     }
+    spec fn chain(&self) -> bool {
+        &&& self.deltas@.len() < 0x8000_0000
+        &&& forall|i: int| 0 <= i < self.deltas@.len() ==>
+                (#[trigger] self.deltas@[i]).serial_spec().0 == wadd(self.cur().0, -i)
+    }
 }
